@@ -5,8 +5,10 @@ use kvarn::prelude::*;
 use std::sync::atomic::{AtomicUsize, Ordering};
 use std::sync::Arc;
 
-const ORIGINS: [&str; 14] = ["http://site.test", "https://site.test", "http://site.test:8080", "http://other.test", "https://other.test", "https://other.test:444", "http://SITE.test",
-    "null", "localhost", "", "http://other.test/path", "https://user@other.test", "http://oth\u{e9}r.test", "https://third.test"];
+const ORIGINS: [&str; 19] = ["http://site.test", "https://site.test", "http://site.test:8080", "http://other.test", "https://other.test", "https://other.test:444", "http://SITE.test",
+    "null", "localhost", "", "http://other.test/path", "https://user@other.test", "http://oth\u{e9}r.test", "https://third.test",
+    // an authority without a scheme is not the `https://…` origin a rule lists (nor the `http://…` one)
+    "other.test", "other.test:444", "third.test", "site.test", "//other.test"];
 const PATHS: [&str; 5] = ["/page", "/api/x", "/api/deep/y", "/", "/index.html"];
 
 /// rule spec: (pattern, allow_all, origins, methods or None=all, headers, max age secs)
@@ -44,7 +46,7 @@ impl Group for Decisions {
         "c13.respond"
     }
     fn rule(&self) -> &'static str {
-        "a real loopback server with Extensions::new() + with_cors(rule set): 0-4 rules over exact and wildcard paths sharing prefixes (incl. wildcards one character longer than an exact rule, `/page` + `/page*`, in both insertion orders), origin lists, method lists, allow-all flags, default and permissive status filter; one keep-alive connection carrying 6-12 requests over 5 paths (incl. `/` and /index.html) x methods GET/POST/PUT/OPTIONS(+preflight) x 14 Origin values (same / different scheme, host, port, case, `null`, `localhost`, empty, path suffix, userinfo, non-ASCII) interleaved with same-origin requests that warm the cache; per response: status, whether the target handler ran (invocation counter), ACAO, preflight headers — compared with the model given the most specific rule (independent resolver) and the Origin as parsed by the real Uri type; oracle: a reference decision written from the statement; non-trivial = the case has a cross-origin request"
+        "a real loopback server with Extensions::new() + with_cors(rule set): 0-4 rules over exact and wildcard paths sharing prefixes (incl. wildcards one character longer than an exact rule, `/page` + `/page*`, in both insertion orders), origin lists, method lists, allow-all flags, default and permissive status filter; one keep-alive connection carrying 6-12 requests over 5 paths (incl. `/` and /index.html) x methods GET/POST/PUT/OPTIONS(+preflight) x 19 Origin values (same / different scheme, host, port, case, `null`, `localhost`, empty, path suffix, userinfo, non-ASCII, bare authorities of listed origins) interleaved with same-origin requests that warm the cache; per response: status, whether the target handler ran (invocation counter), ACAO, preflight headers — compared with the model given the most specific rule (independent resolver) and the Origin as parsed by the real Uri type; oracle: a reference decision written from the statement; non-trivial = the case has a cross-origin request"
     }
     fn parallel(&self) -> bool {
         false
